@@ -349,11 +349,15 @@ fn flatten_gds(g: &GdsLibrary, top: &str, tf: Tf, depth: usize, out: &mut Vec<St
             }
             GdsElement::GdsStructRef(r) => {
                 let (refl, q) = quarter_of(&r.strans).ok_or("unsupported strans")?;
+                // a magnified reference scales the referenced geometry: not representable in the raw model, so the
+                // required outcome is an error (unit magnification is the identity)
+                if r.strans.as_ref().and_then(|s| s.mag).map(|m| m != 1.0).unwrap_or(false) { return Err("unsupported mag".into()); }
                 flatten_gds(g, &r.name, tf.then_child(&Tf::place((r.xy.x as i64, r.xy.y as i64), refl, q)), depth + 1, out)?;
             }
             GdsElement::GdsArrayRef(a) => {
                 let (refl, q) = quarter_of(&a.strans).ok_or("unsupported strans")?;
-                if a.strans.as_ref().map(|s| s.mag.is_some()).unwrap_or(false) { return Err("unsupported mag".into()); }
+                if a.strans.as_ref().and_then(|s| s.mag).map(|m| m != 1.0).unwrap_or(false) { return Err("unsupported mag".into()); }
+                if a.strans.as_ref().map(|s| s.mag.is_some()).unwrap_or(false) { return Err("array with MAG record".into()); }
                 let (cols, rows) = (a.cols as i64, a.rows as i64);
                 if cols <= 0 || rows <= 0 { return Err("zero rows/cols".into()); }
                 let p: Vec<P2> = a.xy.iter().map(|q| (q.x as i64, q.y as i64)).collect();
@@ -425,7 +429,7 @@ pub fn oracle_c06(line: &str) -> String {
         Ok(lib) => {
             let out = (|| -> String {
                 if let Some(m) = malformed {
-                    if ["dangling", "cyclic", "zero rows/cols", "empty xy"].contains(&m.as_str()) { return format!("fail malformed hierarchy ({}) imported without error", m); }
+                    if ["dangling", "cyclic", "zero rows/cols", "empty xy", "unsupported mag"].contains(&m.as_str()) { return format!("fail malformed hierarchy ({}) imported without error", m); }
                     return "na".into(); // unsupported orientation etc.: outside the property's quantifier
                 }
                 for (name, r) in &refs {
@@ -557,7 +561,7 @@ fn gen_strans(rng: &mut Rng) -> Option<GdsStrans> {
     match rng.below(10) {
         0 => None,
         1 => Some(GdsStrans { abs_angle: true, ..Default::default() }),
-        _ => Some(GdsStrans { reflected: rng.coin(), angle: if rng.chance(1, 5) { None } else if rng.chance(1, 3) { Some(90.0 * (rng.below(14) as i64 - 6) as f64) /* negative right angles and whole turns: -540 … 630 */ } else { Some(90.0 * rng.range(0, 3) as f64) }, mag: None, ..Default::default() }),
+        _ => Some(GdsStrans { reflected: rng.coin(), angle: if rng.chance(1, 5) { None } else if rng.chance(1, 3) { Some(90.0 * (rng.below(14) as i64 - 6) as f64) /* negative right angles and whole turns: -540 … 630 */ } else { Some(90.0 * rng.range(0, 3) as f64) }, mag: match rng.below(12) { 0 => Some(1.0), 1 => Some([2.0, 0.5, 3.0, 1.0000000000000002][rng.below(4) as usize]), _ => None }, ..Default::default() }),
     }
 }
 pub fn gen_gds_lib(rng: &mut Rng, malform: u64, big: bool) -> GdsLibrary {
